@@ -114,6 +114,13 @@ def build_txns(data_atoms, names, rnd, variant):
                          category='Transfers', subcategory='', source='Card', location=None, tags=[]))
         txns.append(dict(date=d(2025, 2, 4), raw_description='REIMBURSEMENT', description='Employer', amount=-42.0, merchant='Employer',
                          category='Income', subcategory='Salary', source='Bank "B"', location=None, tags=['expenses']))
+    if variant % 2 == 0:
+        # ONE transaction with several special tags (two rules fired): the precedence income > investment > transfer decides its
+        # bucket everywhere a bucket is shown
+        txns.append(dict(date=d(2025, 2, 16), raw_description='ACH TO BROKERAGE', description='Fidelity', amount=sg * 300.0, merchant='Fidelity',
+                         category='Invest', subcategory='', source='Card', location=None, tags=['transfer', 'investment']))
+        txns.append(dict(date=d(2025, 2, 17), raw_description='BONUS VIA TRANSFER', description='Employer', amount=-800.0, merchant='Employer',
+                         category='Income', subcategory='Salary', source='Bank "B"', location=None, tags=['Transfer', 'Income', 'investment']))
     if variant % 3 != 1:
         # what no rule matched (Unknown / Unknown) next to categories a rule may legitimately assign with the same words
         txns.append(dict(date=d(2025, 2, 12), raw_description='MYSTERY ' + desc, description='Mystery', amount=sg * 9.5, merchant='Mystery',
